@@ -1,5 +1,6 @@
 import CGV.Props.C16
 import CGV.Props.C16Run
+import CGV.Props.C16Copies
 #print axioms CGV.C16.C16_complement_forward
 #print axioms CGV.C16.C16_complement_backward
 #print axioms CGV.C16.C16_complement_dollar
@@ -13,3 +14,8 @@ import CGV.Props.C16Run
 #print axioms CGV.C16.C16_step
 #print axioms CGV.C16.C16_run
 #print axioms CGV.C16.cfgWFb_sound
+#print axioms CGV.C16.attach_extends
+#print axioms CGV.C16.run_extends
+#print axioms CGV.C16.C16_every_copy
+#print axioms CGV.C16.C16_start_copy
+#print axioms CGV.C16.sampleA_run
